@@ -58,6 +58,7 @@ class Ctx:
         self.t0 = time.time()
         self.undecided = ""
         self.decided = ""
+        self.deferred = []       # floor messages: an analysis error only if the run ends without any violation
 
     # -- bookkeeping -------------------------------------------------------
     def rule(self, rid: str, text: str):
@@ -123,6 +124,11 @@ class Ctx:
 
     def note(self, s):
         self.notes.append(s)
+
+    def defer(self, msg: str):
+        """A count fell below what was confirmed by hand.  If the same run reports violations, they explain it (the construct was
+        changed, and is reported); otherwise the matcher lost sight of its subject: analysis error at the end of the run."""
+        self.deferred.append(msg)
 
 
 class SubCtx:
@@ -247,6 +253,10 @@ def full_check(mod, ctx):
     mod.check(ctx)
     from . import sigrules
     sigrules.check_bindings(ctx)
+    if ctx.deferred:
+        kk = {k["key"] for k in load_known().get("known", []) if k["property"] == ctx.prop}
+        if not [v for v in ctx.violations if v.key not in kk]:
+            raise AnalysisError(ctx.deferred[0])
 
 
 def run_check(prop: str, tier: str, fn, seed: int = 0) -> int:
